@@ -156,6 +156,7 @@ func main() {
 	runConn(r, &scs)
 	sum := mcx.Explore(r, scs, mcx.Config{Wall: ev.Pick(r, 3*time.Minute, 25*time.Minute)})
 	mcx.Report(r, scs, sum)
+	mcx.RacePass(r, 3, "net/client")
 	r.Set("rule", "component world: real ReceivedMessageReader, queue sizes 0/1/2, a producer pushing 3-4 messages as Conn.Process does, handlers that return or wait for a later message after TryToReplaceLoop (nesting depth 1..3), 0-2 application threads calling TryToReplaceLoop (a Do issued from another goroutine), optional close at any point; all schedules within the preemption bound with every select arbitration; oracle: each message handled exactly once while open, handler entry order = push order when no handler blocks, no application thread parked forever; distinct outcome = distinct (entry log, pushed, deadlock)")
 	r.Sample(map[string]any{"scenario": scs[1].Name})
 	r.Assume("handler entry is observed at the dispatching loop's commitment (no scheduling point between the loop's readingMessages.Store(false) and the first statement of the handler)",
